@@ -96,7 +96,20 @@ def gen_star_case(r, maxops, maxfan=6):
         # the network grows: one or two arcs are connected after the node has been used (Arc.__init__ registers an arc
         # with both ends at any time)
         for _ in range(r.choice([1, 1, 2])):
-            ops.insert(r.randint(1, len(ops) - 1), (r.choice(["addout", "addin"]), arcs(1)[0]))
+            used = [j for j, o in enumerate(ops) if o[0] in ("push", "pull", "pushcheck", "pullcheck")]
+            if used and r.random() < 0.8:
+                # ... an arc the node has already looked for: of a type named by an earlier request, connected after
+                # that request, and the request is made again afterwards
+                j = r.choice(used)
+                o = ops[j]
+                a = arcs(1)[0]
+                if o[2] is not None:
+                    a["ty"] = r.choice(ot_list(o[2]))
+                q = r.randint(j + 1, len(ops))
+                ops.insert(q, ("addout" if o[0] in ("push", "pushcheck") else "addin", a))
+                ops.insert(r.randint(q + 1, len(ops)), o)
+            else:
+                ops.insert(r.randint(1, len(ops) - 1), (r.choice(["addout", "addin"]), arcs(1)[0]))
     return {"kind": "star", "cls": "Node", "adds": adds, "nons": nons, "outs": outs, "ins": ins, "ops": ops}
 
 
